@@ -302,7 +302,7 @@ Section Service.
   Lemma sv_inv_step (s : svc) (e : sev) : sv_inv s -> sv_inv (sv_st c dec thr s e).
   Proof.
     intros H. pose proof H as (Hc & Hn & Hi & Hb).
-    unfold sv_st. destruct e as [|a|a|a o|a|ms|mode|a]; cbn [sv_step].
+    unfold sv_st. destruct e as [|a|a|a o|a|ms|mode|a| |]; cbn [sv_step].
     - destruct (sv_limit s <=? sv_inflight s); exact H.
     - destruct (memn a (sv_created s)) eqn:Em; [exact H|]. cbn.
       unfold sv_inv; cbn [sv_inflight sv_live sv_created sv_limit map fst length].
@@ -326,6 +326,12 @@ Section Service.
       unfold sv_inv; cbn [sv_inflight sv_live sv_created sv_limit].
       split; [lia|]. split; [exact Hn|]. split; [|exact Hb].
       intros x Hx. right. apply Hi. exact Hx.
+    - cbn [fst]. unfold sv_inv, sv_set; cbn.
+      split; [exact Hc|]. split; [exact Hn|]. split; [exact Hi|]. apply ctl_fail_bounds; exact Hmm.
+    - cbn [fst]. unfold sv_inv, sv_set; cbn.
+      split; [exact Hc|]. split; [exact Hn|]. split; [exact Hi|]. destruct (thr <? 0).
+      + apply ctl_fail_bounds; exact Hmm.
+      + apply ctl_succ_bounds; try assumption. lia.
   Qed.
 
   Lemma sv_inv_init initial : sv_inv (sv_init c initial).
@@ -360,7 +366,7 @@ Qed.
 Lemma sv_step_delta c dec thr s e :
   sv_inflight (fst (sv_step c dec thr s e)) = sv_inflight s + code_delta (snd (sv_step c dec thr s e)).
 Proof.
-  destruct e as [|a|a|a o|a|ms|mode|a]; cbn [sv_step].
+  destruct e as [|a|a|a o|a|ms|mode|a| |]; cbn [sv_step].
   - destruct (sv_limit s <=? sv_inflight s); cbn; [lia|].
     destruct (sv_inner s =? 0); [cbn; lia|]. destruct (sv_inner s =? 1); cbn; lia.
   - destruct (memn a (sv_created s)); cbn; lia.
@@ -371,6 +377,8 @@ Proof.
   - cbn; lia.
   - cbn; lia.
   - destruct (memn a (sv_created s)); cbn; lia.
+  - cbn; lia.
+  - cbn; lia.
 Qed.
 
 Lemma sv_run_state c dec thr s evs :
@@ -456,6 +464,17 @@ Example cancelled_calls_give_slots_back :
   let r := sv_run c (dec_q 1 2) 100 (sv_init c 2)
                   [ECall 0; ECall 1; EReady; EPoll 0; EPoll 1; EDrop 0; EDrop 1; EReady] in
   (snd r, sv_inflight (fst r)) = ([20; 20; 13; 30; 30; 50; 50; 11], 0).
+Proof. vm_compute. reflexivity. Qed.
+
+(* feedback that reaches the shared algorithm from elsewhere moves the limit this service's
+   poll_ready compares with: two calls in flight at limit 2, an external failure halves the
+   limit (Pending although no own call started or completed), external successes raise it
+   to 3 (Ready) *)
+Example external_feedback_moves_readiness :
+  let c := {| a_min := 1; a_max := 4; a_inc := 1 |} in
+  let r := sv_run c (dec_q 1 2) 100 (sv_init c 3)
+                  [ECall 0; ECall 1; EReady; EExtFail; EReady; EExtSucc; EReady; EExtSucc; EReady] in
+  (snd r, sv_limit (fst r)) = ([20; 20; 11; 80; 13; 81; 13; 81; 11], 3).
 Proof. vm_compute. reflexivity. Qed.
 
 (* a panic inside inner.call() gives the slot back (before /repo commit 0debd80 the slot
